@@ -16,12 +16,13 @@ import gpytorch
 from gpytorch import settings as gs
 from harness.lib import common as C
 
-COQ_TARGETS = ["Models/C08_shape.vo"]
+COQ_TARGETS = ["Models/C08_shape.vo", "Models/C08_diag.vo"]
 LEVEL_NOTE = ("theorems are about the Gallina shape/broadcast model (which slice each batch element reads); the tie to "
               "/repo is differential: every module's batched output element b vs a non-batched replica built from the "
               "slices the Coq model names (float64, 1e-9)")
-IMPORTS = "From Coq Require Import List ZArith.\nFrom GPV Require Import Models.C08_shape."
-RUN_DEF = "Definition run := run_shapes."
+IMPORTS = "From Coq Require Import List ZArith.\nFrom GPV Require Import Models.C08_shape Models.C08_diag."
+RUN_DEF = "Definition run := run_shapes_cls."
+N3 = 3            # number of points of the diag_n3 outputs (coincides with a batch size on purpose)
 TOL = 1e-9
 
 torch.set_default_dtype(torch.float64)
@@ -41,7 +42,7 @@ def all_shapes(sizes=(1, 2, 3)):
 # ------------------------------------------------------------------ Coq side
 
 def coq_triples(pairs, tag="C08"):
-    terms = ["(%s, %s)" % (C.nat_list(sp), C.nat_list(sd)) for sp, sd in pairs]
+    terms = ["(%d%%nat, (%s, %s))" % (N3, C.nat_list(sp), C.nat_list(sd)) for sp, sd in pairs]
     res = C.coq_run_cases(tag, IMPORTS, RUN_DEF, terms, shard=max(1, (len(terms) + 7) // 8))
     out = []
     for (sp, sd), r in zip(pairs, res):
@@ -58,8 +59,10 @@ def coq_triples(pairs, tag="C08"):
             p = tuple(rd.int() for _ in range(len(sp))); pr = rd.int(); po = rd.int()
             d = tuple(rd.int() for _ in range(len(sd))); dr = rd.int(); do = rd.int()
             trip.append(dict(b=b, p=p, p_ravel=pr, p_off=po, d=d, d_ravel=dr, d_off=do))
+        # input-class bits of the two recorded findings, decided by the Coq model (Models/C08_diag.v)
+        cls = dict(diag_collision=bool(rd.int()), expands=bool(rd.int()))
         assert rd.done()
-        out.append(dict(t=t, triples=trip))
+        out.append(dict(t=t, triples=trip, **cls))
     return out
 
 
@@ -87,6 +90,18 @@ def check_against_torch(out, sp, sd, m):
         ok = ok and int(idd[tr["b"]]) == int(base_d[tr["d"]]) == tr["d_ravel"] == tr["d_off"]
     if not ok:
         out.fail("shape-model:bproj-vs-expand", "Coq bproj / all_indices disagree with Tensor.expand", case, model=m)
+    # Models/C08_diag.v: expands_to vs Tensor.expand; takes_diagonal on the correct diagonal shape vs the literal test
+    try:
+        torch.empty(sp).expand(torch.Size(sd))
+        texp = True
+    except RuntimeError:
+        texp = False
+    res_shape, x_shape = tt + (N3,), tuple(sd) + (N3, D)
+    literal = len(res_shape) == len(x_shape) and res_shape[-2:] == (N3, N3)
+    if m["expands"] != texp or m["diag_collision"] != literal or literal != diag_collision(sp, sd, tt, N3):
+        out.fail("shape-model:input-class-bits", "Coq expands_to / takes_diagonal disagree with torch / the literal test", case,
+                 impl=dict(expands=texp, diag_collision=literal), model=dict(expands=m["expands"], diag_collision=m["diag_collision"]))
+        ok = False
     return ok
 
 
@@ -148,9 +163,32 @@ KERNELS = {
 }
 
 
+def each_output(**thunks):
+    """evaluate every observable separately: an exception belongs to the public call that raised it"""
+    res = {}
+    for name, th in thunks.items():
+        try:
+            res[name] = th()
+        except Exception as e:
+            res[name] = e
+    return res
+
+
+def diag_collision(sp, sd, t, n):
+    """input class of the recorded finding C08-kernel-diag-batch-rank-heuristic: the kernel's batch shape has exactly
+    one dimension more than the inputs' and the last dimension of the broadcast batch equals the number of points n,
+    so that the correct `*t x n` result of kernel(x, diag=True) has as many dimensions as x and ends in (n, n)"""
+    return len(sp) == len(sd) + 1 and len(t) >= 1 and t[-1] == n
+
+
 class Family:
     name = ""
     tol = TOL
+
+    def input_class(self, name, sp, sd, m):
+        """suffix appended to the failure key of output `name`: names a narrower input class where one is known to matter
+        (never used to skip or loosen a comparison)"""
+        return ""
 
     def make(self, bs):          # module(s) with batch shape bs, returned as one torch.nn.Module
         raise NotImplementedError
@@ -178,10 +216,15 @@ class KernelFam(Family):
 
     def run(self, mod, data):
         with torch.no_grad():
-            x3 = data["x"][..., :3, :]     # 3 points: coincides with a batch size of 3 (Kernel.__call__ diag heuristic)
-            return dict(K=mod(data["x"]).to_dense(), Kx=mod(data["x"], data["x2"]).to_dense(),
-                        diag=mod(data["x"], diag=True), lazy_diag=mod(data["x"]).diagonal(dim1=-1, dim2=-2),
-                        diag_n3=mod(x3, diag=True))
+            x3 = data["x"][..., :N3, :]     # 3 points: coincides with a batch size of 3 (Kernel.__call__ diag heuristic)
+            return each_output(K=lambda: mod(data["x"]).to_dense(), Kx=lambda: mod(data["x"], data["x2"]).to_dense(),
+                               diag=lambda: mod(data["x"], diag=True),
+                               lazy_diag=lambda: mod(data["x"]).diagonal(dim1=-1, dim2=-2),
+                               diag_n3=lambda: mod(x3, diag=True),
+                               lazy_diag_n3=lambda: mod(x3).diagonal(dim1=-1, dim2=-2))
+
+    def input_class(self, name, sp, sd, m):
+        return "+diag-batchdim-eq-n" if name in ("diag_n3", "lazy_diag_n3") and m["diag_collision"] else ""
 
 
 class MeanFam(Family):
@@ -220,9 +263,8 @@ class GaussLikFam(Family):
     def run(self, mod, data):
         with torch.no_grad():
             f = gpytorch.distributions.MultivariateNormal(data["m"], data["V"])
-            marg = mod(f)
-            return dict(marg_mean=marg.mean, marg_cov=marg.covariance_matrix,
-                        elp=mod.expected_log_prob(data["y"], f), lmarg=mod.log_marginal(data["y"], f))
+            return each_output(marg_mean=lambda: mod(f).mean, marg_cov=lambda: mod(f).covariance_matrix,
+                               elp=lambda: mod.expected_log_prob(data["y"], f), lmarg=lambda: mod.log_marginal(data["y"], f))
 
 
 class FixedNoiseLikFam(GaussLikFam):
@@ -241,9 +283,8 @@ class FixedNoiseLikFam(GaussLikFam):
         lik = gpytorch.likelihoods.FixedNoiseGaussianLikelihood(0.05 + mod.noise.data.abs())
         with torch.no_grad():
             f = gpytorch.distributions.MultivariateNormal(data["m"], data["V"])
-            marg = lik(f)
-            return dict(marg_mean=marg.mean, marg_cov=marg.covariance_matrix,
-                        elp=lik.expected_log_prob(data["y"], f), lmarg=lik.log_marginal(data["y"], f))
+            return each_output(marg_mean=lambda: lik(f).mean, marg_cov=lambda: lik(f).covariance_matrix,
+                               elp=lambda: lik.expected_log_prob(data["y"], f), lmarg=lambda: lik.log_marginal(data["y"], f))
 
 
 class MultitaskLikFam(Family):
@@ -260,9 +301,13 @@ class MultitaskLikFam(Family):
     def run(self, mod, data):
         with torch.no_grad():
             f = gpytorch.distributions.MultitaskMultivariateNormal(data["m"], data["V"])
-            marg = mod(f)
-            return dict(marg_mean=marg.mean, marg_cov=marg.covariance_matrix,
-                        elp=mod.expected_log_prob(data["y"], f))
+            return each_output(marg_mean=lambda: mod(f).mean, marg_cov=lambda: mod(f).covariance_matrix,
+                               elp=lambda: mod.expected_log_prob(data["y"], f), lmarg=lambda: mod.log_marginal(data["y"], f))
+
+    def input_class(self, name, sp, sd, m):
+        # class of the recorded finding C08-multitask-likelihood-param-batch: the likelihood's batch shape does not
+        # expand to the data's batch shape (Coq: expands_to sp sd = false <-> broadcast batch <> data batch)
+        return "+param-batch-exceeds-data-batch" if not m["expands"] else ""
 
 
 class ExactGPFam(Family):
@@ -283,38 +328,44 @@ class ExactGPFam(Family):
         def forward(self, x):
             return gpytorch.distributions.MultivariateNormal(self.mean_module(x), self.covar_module(x))
 
-    def __init__(self, kname, test_batched=True):
-        self.kname, self.test_batched = kname, test_batched
-        self.name = "exactgp:%s%s" % (kname, "" if test_batched else ":unbatched-test-x")
+    def __init__(self, kname, mode="both"):
+        """mode: which of (train data, test inputs) carry the data batch shape: both | train-only | test-only"""
+        self.kname, self.mode = kname, mode
+        self.name = "exactgp:%s%s" % (kname, {"both": "", "train-only": ":unbatched-test-x", "test-only": ":unbatched-train-data"}[mode])
 
     def make(self, bs):
         return self.Holder(bs, self.kname)
 
+    SHARED = ("xs_shared", "x_shared", "y_shared")
+
     def data(self, rng, sd):
+        if self.mode == "test-only":
+            return dict(x_shared=points(rng, (), N), y_shared=rand(rng, N), xs=points(rng, sd, M))
         d = dict(x=points(rng, sd, N), y=rand(rng, *sd, N), xs=points(rng, sd, M))
-        if not self.test_batched:
+        if self.mode == "train-only":
             d["xs_shared"] = points(rng, (), M)
         return d
 
     def run(self, mod, data):
-        model = self.GP(data["x"], data["y"], mod)
+        x, y = (data["x_shared"], data["y_shared"]) if self.mode == "test-only" else (data["x"], data["y"])
+        model = self.GP(x, y, mod)
         res = {}
         model.train(); mod.likelihood.train()
         with torch.no_grad():
             mll = gpytorch.mlls.ExactMarginalLogLikelihood(mod.likelihood, model)
-            res["mll"] = mll(model(data["x"]), data["y"])
-            prior = model(data["x"])
+            res["mll"] = mll(model(x), y)
+            prior = model(x)
             res["prior_mean"], res["prior_cov"] = prior.mean, prior.covariance_matrix
         model.eval(); mod.likelihood.eval()
         with torch.no_grad():
-            post = model(data["xs"] if self.test_batched else data["xs_shared"])
+            post = model(data["xs_shared"] if self.mode == "train-only" else data["xs"])
             res["post_mean"], res["post_cov"] = post.mean, post.covariance_matrix
             pred = mod.likelihood(post)
             res["pred_cov"] = pred.covariance_matrix
         return res
 
     def dslice(self, data, didx):
-        return {k: (v if k == "xs_shared" else v[didx]) for k, v in data.items()}
+        return {k: (v if k in self.SHARED else v[didx]) for k, v in data.items()}
 
 
 class VariationalFam(Family):
@@ -363,13 +414,14 @@ class VariationalFam(Family):
 def families(tier):
     fams = [KernelFam(k) for k in KERNELS]
     fams += [MeanFam("constant"), MeanFam("linear"), GaussLikFam(), FixedNoiseLikFam(), MultitaskLikFam()]
-    fams += [ExactGPFam("scale_rbf"), ExactGPFam("matern25_ard"), ExactGPFam("rbf+linear", test_batched=False)]
+    fams += [ExactGPFam("scale_rbf"), ExactGPFam("matern25_ard"), ExactGPFam("rbf+linear", mode="train-only"),
+             ExactGPFam("scale_matern", mode="test-only")]
     fams += [VariationalFam(True), VariationalFam(False)]
     return fams
 
 
 # event rank (number of trailing non-batch dimensions) of every output
-EV = dict(K=2, Kx=2, diag=1, lazy_diag=1, diag_n3=1, m=1, marg_mean=1, marg_cov=2, elp=1, lmarg=1, mll=0, prior_mean=1, prior_cov=2,
+EV = dict(K=2, Kx=2, diag=1, lazy_diag=1, diag_n3=1, lazy_diag_n3=1, m=1, marg_mean=1, marg_cov=2, elp=1, lmarg=1, mll=0, prior_mean=1, prior_cov=2,
           post_mean=1, post_cov=2, pred_cov=2, train_mean=1, train_cov=2, kl=0, elbo=0, pred_mean=1)
 
 
@@ -390,15 +442,22 @@ def run_family(out, fam, sp, sd, m, seed, table):
         return 0
     t = m["t"]
     reader = {}
-    for name, v in got.items():
+    for name, v in list(got.items()):
+        if isinstance(v, Exception):
+            out.fail("impl-exception:%s:%s:%s:%s%s" % (fam.name, name, type(v).__name__, key_shape, fam.input_class(name, sp, sd, m)),
+                     "batched module raised while computing output %s on a broadcastable (parameter, data) batch shape "
+                     "pair: %r" % (name, v), case)
+            del got[name]
+            continue
         ev = getattr(fam, "ev", {}).get(name, EV[name])
         u = tuple(v.shape[:v.dim() - ev]) if v.dim() >= ev else None
         mu = table.get((u, t)) if u is not None else None
         if mu is None or mu["t"] != t:
-            out.fail("batch-shape:%s:%s:%s" % (fam.name, name, key_shape),
+            out.fail("batch-shape:%s:%s:%s%s" % (fam.name, name, key_shape, fam.input_class(name, sp, sd, m)),
                      "output %s has shape %s: its batch shape %s does not broadcast to the broadcast batch shape %s"
                      % (name, tuple(v.shape), u, t), case, impl=list(v.shape), model=list(t))
-            return 0
+            del got[name]
+            continue
         if u != t:
             out.count("unexpanded-output:%s:%s" % (fam.name.split(":")[0], name))
         reader[name] = [tr["p"] for tr in mu["triples"]]      # Coq: bproj u b for every b of t, storage order
@@ -418,10 +477,14 @@ def run_family(out, fam, sp, sd, m, seed, table):
         for name, v in got.items():
             mine = v[reader[name][kb]]
             r = ref[name]
+            if isinstance(r, Exception):
+                out.fail("impl-exception:replica:%s:%s:%s" % (fam.name, name, type(r).__name__),
+                         "non-batched replica raised %r while computing output %s" % (r, name), dict(case, b=list(b)))
+                continue
             if mine.shape != r.shape or not torch.allclose(mine, r, rtol=fam.tol, atol=fam.tol) \
                     or bool(torch.isnan(mine).any()):
                 err = float((mine - r).abs().max()) if mine.shape == r.shape else None
-                out.fail("replica:%s:%s:%s" % (fam.name, name, key_shape),
+                out.fail("replica:%s:%s:%s%s" % (fam.name, name, key_shape, fam.input_class(name, sp, sd, m)),
                          "element b of the batched output %s differs from the non-batched replica built from parameter "
                          "slice %s and data slice %s (max abs err %s)" % (name, list(pidx), list(didx), err),
                          dict(case, b=list(b), pidx=list(pidx), didx=list(didx)),
